@@ -6,5 +6,9 @@ pub mod stubs;
 pub mod c01_lwe;
 pub mod c02;
 pub mod c19;
+pub mod c01_glwe;
 pub mod c18_core;
+pub mod probe_be;
+pub mod probe_full;
+pub use poulpy_cpu_ref::reference;
 pub mod generated;
